@@ -102,6 +102,9 @@ func (def *mapAsList) getByRow(r node.ListRequest) (reflect.Value, []reflect.Val
 
 func (def *mapAsList) newListItem(r node.ListRequest) (reflect.Value, error) {
 	var empty reflect.Value
+	if !isKeyValid(r.Key) {
+		return empty, fmt.Errorf("no key specified for %s, a map can only hold list items by their key", r.Path.String())
+	}
 	t := def.src.Type().Elem()
 	itemVal, err := def.ref.NewObject(t, r.Meta, true)
 	if err != nil {
